@@ -145,6 +145,7 @@ type FSAnswer struct {
 
 // Sim is one simulated run.
 type Sim struct {
+	YieldHoldingLock bool // see holdYield
 	rootGid uint64
 	Tape    *Tape
 
@@ -1059,6 +1060,28 @@ func unlockNote(kind int, obj uintptr) {
 	addNote(t, kind, obj)
 }
 
+// LockStateCopied is raised when the model has granted a lock (nobody the simulator knows holds it) and the
+// real lock behind it is nevertheless taken: its state did not come about through Lock calls -- the object
+// holding it was copied by value while it was locked. Outside the simulator the caller blocks for ever.
+type LockStateCopied struct{ Site string }
+
+const LockStateCopiedMark = "simrt: lock held by nobody"
+
+func (r LockStateCopied) Error() string {
+	return LockStateCopiedMark + ": the lock requested at " + r.Site + " is free as far as every Lock/Unlock call goes, yet it is in a locked state: the object holding it was copied by value while the original was locked, and no goroutine will ever unlock the copy"
+}
+
+// holdYield: in runs that ask for it (Sim.YieldHoldingLock) the task that has just been granted a lock
+// yields once while holding it, so that other tasks run INSIDE its critical section (critical sections
+// without a scheduling point of their own are otherwise atomic under the serialised schedule).
+//
+//go:norace
+func holdYield(site string) {
+	if s := cur; s != nil && s.YieldHoldingLock && current() != nil {
+		Yield("holding:" + site)
+	}
+}
+
 // Lock / Unlock for sync.Mutex.
 func Lock(m *sync.Mutex, site string) {
 	if !lockReq(site, mutexAddr(m), KLock, "") && onRoot() {
@@ -1068,7 +1091,11 @@ func Lock(m *sync.Mutex, site string) {
 		rootTook(mutexAddr(m), false, false)
 		return
 	}
-	m.Lock()
+	if !m.TryLock() {
+		unlockNote(1, mutexAddr(m)) // (the model's grant is handed back: the task does not hold anything)
+		panic(LockStateCopied{site})
+	}
+	holdYield(site)
 }
 
 func Unlock(m *sync.Mutex, site string) {
@@ -1085,7 +1112,11 @@ func RWLock(m *sync.RWMutex, site string) {
 		rootTook(rwAddr(m), true, false)
 		return
 	}
-	m.Lock()
+	if !m.TryLock() {
+		unlockNote(1, rwAddr(m))
+		panic(LockStateCopied{site})
+	}
+	holdYield(site)
 }
 
 func RWUnlock(m *sync.RWMutex, site string) {
@@ -1101,7 +1132,11 @@ func RLock(m *sync.RWMutex, site string) {
 		rootTook(rwAddr(m), true, true)
 		return
 	}
-	m.RLock()
+	if !m.TryRLock() {
+		unlockNote(2, rwAddr(m))
+		panic(LockStateCopied{site})
+	}
+	holdYield(site)
 }
 
 func RUnlock(m *sync.RWMutex, site string) {
